@@ -60,6 +60,8 @@ fn resolve(r: &R2, len: usize) -> Option<(usize, usize)> {
 
 fn bound(sel: u8, raw: usize, len: usize) -> Bound<usize> {
     let i = pick(raw, len + 3);
+    // (rarely the largest index: `..=usize::MAX` / `(Excluded(usize::MAX), ..)` overflow when resolved)
+    let i = if sel >= 250 { usize::MAX } else { i };
     match sel % 4 {
         0 => Bound::Unbounded,
         1 | 2 => Bound::Included(i),
@@ -134,6 +136,9 @@ fn model_apply(m: &mut String, op: &SOp) -> MR {
                         None => break,
                     }
                 }
+                // what is left in the draining iterator (Drain::as_str)
+                out.push('|');
+                out.push_str(d.as_str());
                 drop(d);
                 MR::Str(out)
             }
@@ -228,6 +233,8 @@ macro_rules! str_ops {
                         None => break,
                     }
                 }
+                out.push('|');
+                out.push_str(d.as_str());
                 drop(d);
                 RR::Str(out)
             }
